@@ -570,6 +570,152 @@ func vC01cRun(t *testing.T, rnd *rand.Rand, round int) (lines []vObj) {
 	return lines
 }
 
+// ---------------------------------------------------------------------------------------------------------------
+// Continuous feed over a change cache that is fed OUT OF ORDER.  Documents are written directly into the bucket with
+// chosen sequences (WriteDirect), leaving gaps: the change cache skips the missing sequences after CachePendingSeqMaxWait
+// (5 ms) and the documents written later with those sequences arrive late (late-sequence feeds, compound low::seq
+// tokens).  A continuous feed of a user with two channels is open all the time.  Each group of six sequences b+1..b+6:
+// b+1, b+2, b+5, b+6 first; once the feed has delivered b+6 and finished that iteration, b+3 and b+4 arrive late, back
+// to back (broadcast interval 400 ms, so that they are normally picked up by the same iteration), in a seeded shape:
+// highest first or lowest first, the lower one in both channels and the higher one in one.  The rows are logged per
+// iteration of the feed (split at its "caught up" markers); order within an iteration, no repeated entry, soundness and
+// eventual completeness are evaluated by TLC (Trace_Changes: RLateOrdered, RLateNoDup, RLateSound, REventually).
+// ---------------------------------------------------------------------------------------------------------------
+func vC01cLate(t *testing.T, rnd *rand.Rand, round int) (lines []vObj) {
+	grants := map[string][]string{"alice": {"A", "B"}, "bob": {"B"}}
+	co := DefaultCacheOptions()
+	co.CachePendingSeqMaxWait = 5 * time.Millisecond
+	co.CachePendingSeqMaxNum = 50
+	co.CacheSkippedSeqMaxWait = 2 * time.Minute
+	interval := 400 * time.Millisecond
+	co.BroadcastChangesInterval = interval
+	co.SkippedSequenceBroadcastInterval = interval
+	db, ctx := SetupTestDBWithOptions(t, DatabaseContextOptions{CacheOptions: &co})
+	defer db.Close(ctx)
+	col := GetSingleDatabaseCollection(t, db.DatabaseContext)
+	c := &vC01bCfg{name: "warm", db: db, ctx: ctx, col: col}
+	a := db.Authenticator(ctx)
+	for _, n := range []string{"alice", "bob"} {
+		u, err := a.NewUser(n, "", base.SetFromArray(grants[n]))
+		if err != nil || a.Save(u) != nil {
+			t.Fatalf("VERIF-FATAL user %s: %v", n, err)
+		}
+	}
+	lines = append(lines, vObj{"a": "Reset", "beh": round, "grants": grants, "cfgs": []string{"warm"}})
+
+	var mu sync.Mutex
+	var iters [][]vObj
+	var cur []vObj
+	lastRow := time.Now()
+	fctx, cancel := context.WithCancel(ctx)
+	opts := ChangesOptions{Since: SequenceID{}, Continuous: true, Wait: true, ChangesCtx: fctx}
+	ch, err := c.withUser(t, "alice").MultiChangesFeed(fctx, base.SetOf("*"), opts)
+	if err != nil || ch == nil {
+		t.Fatalf("VERIF-FATAL continuous feed: %v", err)
+	}
+	done := make(chan struct{})
+	go func() {
+		defer close(done)
+		for e := range ch {
+			mu.Lock()
+			if e == nil {
+				if len(cur) > 0 {
+					iters = append(iters, cur)
+					cur = nil
+				}
+			} else if e.Err == nil {
+				rev := ""
+				if len(e.Changes) > 0 {
+					rev = e.Changes[0][ChangesVersionTypeRevTreeID]
+				}
+				removed := e.Removed.ToArray()
+				sort.Strings(removed)
+				cur = append(cur, vObj{"seq": e.Seq.String(), "tok": []int{int(e.Seq.LowSeq), int(e.Seq.TriggeredBy), int(e.Seq.Seq)},
+					"doc": e.ID, "rev": rev, "removed": removed, "del": e.Deleted})
+				lastRow = time.Now()
+			}
+			mu.Unlock()
+		}
+	}()
+	// has the feed delivered sequence n and finished that iteration?
+	settled := func(n uint64) bool {
+		mu.Lock()
+		defer mu.Unlock()
+		if len(cur) > 0 {
+			return false
+		}
+		for _, it := range iters {
+			for _, r := range it {
+				if uint64(r["tok"].([]int)[2]) == n {
+					return true
+				}
+			}
+		}
+		return false
+	}
+	waitFor := func(what string, cond func() bool) {
+		deadline := time.Now().Add(20 * time.Second)
+		for !cond() {
+			if time.Now().After(deadline) {
+				t.Fatalf("VERIF-FATAL late-arrival run: timed out waiting for %s", what)
+			}
+			time.Sleep(2 * time.Millisecond)
+		}
+	}
+	groups := vEnvInt("VERIF_C01_LATE_GROUPS", 3)
+	docs := []string{}
+	for g := 0; g < groups; g++ {
+		b := uint64(6 * g)
+		for _, w := range []struct {
+			n  uint64
+			ch []string
+		}{{1, []string{"A"}}, {2, []string{"A", "B"}}, {5, []string{"A", "B"}}, {6, []string{"A"}}} {
+			WriteDirect(t, col, w.ch, b+w.n)
+		}
+		waitFor("the change cache to skip the gap", func() bool { return db.changeCache.getNextSequence() > b+6 })
+		waitFor("the feed to deliver the in-order documents", func() bool { return settled(b + 6) })
+		// the skipped sequences arrive late
+		both, one := []string{"A", "B"}, []string{[]string{"A", "B"}[rnd.Intn(2)]}
+		switch (g + int(vSeed())) % 3 {
+		case 0, 1: // highest first; the lower document is in both channels, the higher one in one
+			WriteDirect(t, col, one, b+4)
+			WriteDirect(t, col, both, b+3)
+		default: // lowest first
+			WriteDirect(t, col, both, b+3)
+			WriteDirect(t, col, one, b+4)
+		}
+		start := time.Now()
+		waitFor("the feed to fall silent", func() bool {
+			mu.Lock()
+			defer mu.Unlock()
+			return time.Since(start) > 3*interval && time.Since(lastRow) > 2*interval
+		})
+		for n := uint64(1); n <= 6; n++ {
+			docs = append(docs, fmt.Sprintf("doc-%d", b+n))
+		}
+	}
+	sort.Strings(docs)
+	lines = append(lines, vObj{"a": "Begin", "beh": round, "docs": docs})
+	lines = append(lines, vObj{"a": "View", "views": []vObj{{"eq": false, "docs": c.adminView(t, docs)}}})
+	cancel()
+	db.DatabaseContext.NotifyTerminatedChanges(ctx, "alice")
+	select {
+	case <-done:
+	case <-time.After(5 * time.Second):
+	}
+	mu.Lock()
+	if len(cur) > 0 {
+		iters = append(iters, cur)
+	}
+	pages := []vObj{}
+	for _, it := range iters {
+		pages = append(pages, vObj{"rows": it})
+	}
+	mu.Unlock()
+	lines = append(lines, vObj{"a": "Late", "u": "alice", "req": []string{"*"}, "ao": false, "resp": []vObj{{"eq": false, "pages": pages}}})
+	return lines
+}
+
 func TestVerif_C01_Continuous(t *testing.T) {
 	tw := vOpenTrace(t, "VERIF_TRACE_OUT_C")
 	defer tw.Close()
@@ -577,6 +723,11 @@ func TestVerif_C01_Continuous(t *testing.T) {
 	rounds := vEnvInt("VERIF_C01_CONT_ROUNDS", 3)
 	for r := 0; r < rounds; r++ {
 		for _, l := range vC01cRun(t, rnd, r) {
+			tw.Emit(l)
+		}
+	}
+	for r := 0; r < vEnvInt("VERIF_C01_LATE_ROUNDS", 1); r++ {
+		for _, l := range vC01cLate(t, rnd, 100+r) {
 			tw.Emit(l)
 		}
 	}
